@@ -406,12 +406,22 @@ def imports_stylesheet(rng):
             ninc += 1
             for j in idx[a:b + 1]:
                 templates[j]["inc"] = ninc
+    # top-level variables ga / gb bound in several modules (11.4: the binding with the highest import precedence counts); the
+    # imported ones are closed expressions, the principal module's gb may refer to ga
+    gvars = []
+    for mid in (4, 3, 2):
+        for nm in ("ga", "gb"):
+            if mid == 4 or rng.random() < 0.5:
+                gvars.append({"name": nm, "hasSel": True, "sel": lit("%s@%d" % (nm, mid)), "body": [], "mod": mid})
+    if rng.random() < 0.4:
+        gvars.append({"name": "gb", "hasSel": True, "sel": fn("concat", var("ga"), lit("+main")), "body": [], "mod": 1})
     rid += 1
-    start = [{"i": "apply-templates", "hasSel": False, "sel": NONE, "mode": "", "sorts": [], "params": []},
+    start = [{"i": "lre", "name": cps("g"), "attrs": [], "body": [{"i": "value-of", "sel": var("ga")}, tag("|"), {"i": "value-of", "sel": var("gb")}]},
+             {"i": "apply-templates", "hasSel": False, "sel": NONE, "mode": "", "sorts": [], "params": []},
              {"i": "lre", "name": cps("m"), "attrs": [], "body": [{"i": "apply-templates", "hasSel": True, "sel": P_(step("descendant", T_ANY, abbr=False)), "mode": "m", "sorts": [], "params": []}]}]
     templates.append({"rid": rid, "hasMatch": True, "match": P_(abs_=True), "name": "", "mode": "", "hasPrio": False, "prio": z, "params": [],
                       "body": [{"i": "lre", "name": cps("out"), "attrs": [], "body": start}], "mod": 1})
-    return {"templates": templates, "gvars": [], "keys": [], "strip": [], "mods": mods}
+    return {"templates": templates, "gvars": gvars, "keys": [], "strip": [], "mods": mods}
 
 
 def multidoc_stylesheet(rng):
@@ -586,8 +596,9 @@ def render_modules(ss):
                 lines.append('<xsl:key name="%s" match=%s use=%s/>' % (k["name"], quoteattr(xpgen.render(k["match"])), quoteattr(xpgen.render(k["use"]))))
             for d in ss.get("strip", []):
                 lines.append('<xsl:%s-space elements="%s"/>' % ("strip" if d["strip"] else "preserve", d["name"]))
-            for g in ss["gvars"]:
-                lines.append(r_binding("variable", g))
+        for g in ss["gvars"]:
+            if g.get("mod", 1) == m["id"]:
+                lines.append(r_binding("variable", {k: v for k, v in g.items() if k != "mod"}))
         # templates of this module in stylesheet order; a contiguous run marked "inc": k lives in the file inc<k>.xsl, pulled in by an
         # xsl:include at that position (2.6.1: the included rules are treated as if they stood where the xsl:include element is)
         prev_inc = None
@@ -619,7 +630,7 @@ def render(ss):
 
 def spec_stylesheet(ss):
     """the stylesheet as XSLTSem.tla sees it"""
-    out = spec_form({"templates": [dict(t, mod=t.get("mod", 1)) for t in ss["templates"]], "gvars": ss["gvars"]})
+    out = spec_form({"templates": [dict(t, mod=t.get("mod", 1)) for t in ss["templates"]], "gvars": [dict(g, mod=g.get("mod", 1)) for g in ss["gvars"]]})
     out["mods"] = ss.get("mods") or [{"id": 1, "imports": []}]
     # document() documents: d2.xml, d3.xml, ... are documents 2, 3, ... of the forest the spec is given
     out["docs"] = [{"uri": cps("d%d.xml" % (j + 2)), "idx": j + 2} for j in range(ss.get("ndocs", 0))]
